@@ -220,6 +220,21 @@ class Fn:
         return "::".join(segs)
 
 
+class ClosureFn(Fn):
+    """A closure literal `Box::new(move |PARAMS| BODY)` inside `host` (a fn item path), verified as a function:
+    the BODY text is copied verbatim (then regex rules), the signature (captured variables by reference + the
+    closure parameters with their types) is supplied by the unit.  `which` selects the n-th such closure."""
+    def __init__(self, file, host, name, sig, which=0, **kw):
+        Fn.__init__(self, file, list(host) + [name], **kw)
+        self.host, self.cname, self.sig, self.which = list(host), name, sig, which
+        self.closure = True
+
+    @property
+    def qual(self):
+        segs = Fn(self.file, self.host).qual
+        return segs + "::{closure:" + self.cname + "}"
+
+
 class Edit:
     def __init__(self, start, end, text, kind, ref=None):
         self.start, self.end, self.text, self.kind, self.ref = start, end, text, kind, ref
@@ -261,6 +276,8 @@ def build_fn(repo, spec, src_cache, base_indent="    "):
             s = f.read()
         src_cache[path] = (s, rs.mask(s))
     src, m = src_cache[path]
+    if getattr(spec, "closure", False):
+        return _build_closure(spec, src, m)
     try:
         item = rs.find_fn(src, spec.path, m)
     except rs.ScanError as e:
@@ -319,6 +336,67 @@ def build_fn(repo, spec, src_cache, base_indent="    "):
             line_origin[i] = {"kind": mm.group(1), "ref": mm.group(2), "file": spec.file, "line": base.get("line")}
     ex.text = text
     ex.origins = line_origin
+    ex.fn = spec
+    return ex
+
+
+def _build_closure(spec, src, m):
+    try:
+        host = rs.find_fn(src, spec.host, m)
+    except rs.ScanError as e:
+        raise GenError("anchor lost: %s" % e)
+    found = [x for x in re.finditer(r"Box::new\(\s*move\s*\|([^|]*)\|", m[host.body_open:host.body_close])]
+    if spec.which >= len(found):
+        raise GenError("anchor lost: closure %d in %s" % (spec.which, Fn(spec.file, spec.host).qual))
+    x = found[spec.which]
+    po = host.body_open + x.start() + len("Box::new")
+    pc = rs.match_close(m, po)
+    bs, be = host.body_open + x.end(), pc
+    body = src[bs:be].strip().rstrip(",").strip()
+    counts = {}
+    for r in spec.rules:
+        if isinstance(r, AppendArg):
+            n = 0
+            pos = 0
+            while True:
+                bm = rs.mask(body)
+                x = r.regex.search(bm, pos)
+                if not x:
+                    break
+                po = x.end() - 1
+                pc = rs.match_close(bm, po)
+                inner = bm[po + 1:pc].strip()
+                ins = r.arg if inner == "" else ((" " if inner.endswith(",") else ", ") + r.arg)
+                body = body[:pc] + ins + body[pc:]
+                pos = pc + len(ins)
+                n += 1
+        else:
+            body, n = r.regex.subn(r.repl, body)
+        counts[r.id] = counts.get(r.id, 0) + n
+        if n < r.min_count:
+            raise GenError("anchor lost: rule %s in closure of %s" % (r.id, Fn(spec.file, spec.host).qual))
+    ctext = _clauses_text("requires", spec.requires, "        ") + _clauses_text("ensures", spec.ensures, "        ")
+    sig = spec.sig
+    if spec.rename:
+        sig = re.sub(r"fn\s+[A-Za-z_0-9]+", "fn " + spec.rename, sig, 1)
+    pre = ""
+    for h in spec.hints:
+        if h.anchor == "body:start":
+            pre += _hint_text(h, "        ")
+    text = "%s\n%s    {\n%s        %s;\n    }" % (sig, ctext, pre, body)
+    line = src.count("\n", 0, bs) + 1
+    ex = Extracted()
+    ex.rule_counts, ex.clauses = counts, list(spec.requires) + list(spec.ensures)
+    ex.sha256 = hashlib.sha256(src[bs:be].encode()).hexdigest()
+    ex.repo_span = (spec.file, line, src.count("\n", 0, be) + 1)
+    ex.text = text
+    ex.origins = []
+    for ln in text.split("\n"):
+        mm = re.search(r"//@@(clause|hint):(\S+)\s*$", ln)
+        if mm:
+            ex.origins.append({"kind": mm.group(1), "ref": mm.group(2), "file": spec.file, "line": line})
+        else:
+            ex.origins.append({"kind": "repo", "file": spec.file, "line": line})
     ex.fn = spec
     return ex
 
